@@ -26,7 +26,7 @@ struct Pod { int key; int idx; };
 inline bool operator<(const Pod& a, const Pod& b) { return a.key > b.key; }
 
 void generate(Rng& r, Workload& w, int tier) {
-    int64_t threads = r.chance(1, 8) ? r.range(6, 8) : r.range(0, 5);   // 0..5 -> 1..6 threads, 6 -> 16, 7 -> 24, 8 -> 32
+    int64_t threads = r.chance(1, 8) ? r.range(6, 10) : r.range(0, 5);   // 0..5 -> 1..6 threads, 6 -> 16, 7 -> 24, 8 -> 32, 9/10 -> huge
     w.cfg = {int64_t(r.below(2)), threads, int64_t(r.below(2)), r.range(0, 3), int64_t(r.below(2)),
              r.chance(1, 8) ? 1 : 0, int64_t(r.below(2)),
              r.chance(2, 3) ? 0 : r.range(1, 2)};   // range kind: 0 vector, 1 deque, 2 reverse iterators
@@ -54,8 +54,9 @@ template <> int keyof<sim::Tracked>(const sim::Tracked& p) { return p.k(); }
 template <class T>
 void run(const Workload& w, Result& res) {
     const bool stable = sim::modn(sim::cfg_at(w, C_STABLE), 2) == 1;
-    int64_t tv = sim::modn(sim::cfg_at(w, C_THREADS), 9);
-    const size_t threads = size_t(tv == 8 ? 32 : tv == 7 ? 24 : tv == 6 ? 16 : 1 + tv);
+    int64_t tv = sim::modn(sim::cfg_at(w, C_THREADS), 11);
+    // (9, 10: "as many as possible" -- legal thread counts far beyond the element count and beyond PTRDIFF_MAX)
+    const size_t threads = tv == 10 ? (size_t(1) << 63) : tv == 9 ? ~size_t(0) : size_t(tv == 8 ? 32 : tv == 7 ? 24 : tv == 6 ? 16 : 1 + tv);
     const bool sampling = sim::modn(sim::cfg_at(w, C_MWMSA), 2) == 1;
     const size_t oversample = size_t(1 + sim::modn(sim::cfg_at(w, C_OVERSAMPLE), 4));
     const bool default_threads = sim::modn(sim::cfg_at(w, C_DEFAULT_THREADS), 2) == 1;
